@@ -65,6 +65,7 @@ class InverterProtocol:
     def _max_retries_reached(self) -> Future:
         logger.debug("Max number of retries (%d) reached, request %s failed.", self.retries, self.command)
         self._close_transport()
+        self._retry = 0
         self.response_future = asyncio.get_running_loop().create_future()
         self.response_future.set_exception(MaxRetriesException)
         return self.response_future
@@ -171,12 +172,14 @@ class UdpInverterProtocol(InverterProtocol, asyncio.DatagramProtocol):
             logger.debug("Received exception response: %s", data.hex())
             if self.response_future and not self.response_future.done():
                 self.response_future.set_exception(ex)
+                self._retry = 0
             self._close_transport()
 
     def error_received(self, exc: Exception) -> None:
         """On error received"""
         logger.debug("Received error: %s", exc)
         self.response_future.set_exception(exc)
+        self._retry = 0
         self._close_transport()
 
     async def send_request(self, command: ProtocolCommand) -> Future:
@@ -304,6 +307,7 @@ class TcpInverterProtocol(InverterProtocol, asyncio.Protocol):
             else:
                 logger.debug("Received invalid response: %s", data.hex())
                 self.response_future.set_exception(RequestRejectedException())
+                self._retry = 0
                 self._close_transport()
         except PartialResponseException as ex:
             logger.debug("Received response fragment (%d of %d): %s", ex.length, ex.expected, data.hex())
@@ -316,12 +320,14 @@ class TcpInverterProtocol(InverterProtocol, asyncio.Protocol):
             logger.debug("Received exception response: %s", data.hex())
             if self.response_future and not self.response_future.done():
                 self.response_future.set_exception(ex)
+                self._retry = 0
             # self._close_transport()
 
     def error_received(self, exc: Exception) -> None:
         """On error received"""
         logger.debug("Received error: %s", exc)
         self.response_future.set_exception(exc)
+        self._retry = 0
         self._close_transport()
 
     async def send_request(self, command: ProtocolCommand) -> Future:
